@@ -512,6 +512,11 @@ theorem C09_theta1_solution_lifts (M : Static) (F : ResFn) (hE : M.L.nE = 0)
   simp [dq, List.getD_eq_getElem?_getD, List.getElem?_map, List.getElem?_range hk]
   rfl
 
+/-- the root finder used by the model driver in the correspondence runs (exact affine solve,
+    answer re-checked) honours `RootSound`: the trajectories the driver produces are instances
+    of the theorems above -/
+theorem C09_driver_root_sound : RootSound soundAffineRoot := soundAffineRoot_sound
+
 /-! ### non-vacuity: one concrete, mildly nonlinear instance satisfies all hypotheses at once
 
 Model: one state `x` (nominal 10), one algebraic `a` (nominal 2), one input `u`, one parameter
